@@ -10,6 +10,8 @@ COMMON_ASSUMPTIONS = [
 ]
 
 SIGNATURES = {}
+
+
 NOT_APPLICABLE = {}
 HOOK_COMMITS = []
 
@@ -706,5 +708,37 @@ PROPS["E04"] = dict(
     nontrivial=lambda e: True,
     corrupt=_corrupt_e04,
     rule="seeded regular / Hermes / index documents through the three typed entry points; seeded indexes with one URL-only section and a map plugged in afterwards",
+    assumptions=COMMON_ASSUMPTIONS,
+)
+
+def _corrupt_e05(e):
+    o = e["out"]
+    if o.get("k") != "ok":
+        return False
+    for r in o["outs"]:
+        if len(r) == 2 and all(isinstance(x, int) for x in r):      # a size hint: claim more than is left
+            r[0] += 1000
+            return True
+        if len(r) == 1 and isinstance(r[0], int):
+            r[0] += 1
+            return True
+        if r:
+            r.pop()
+            return True
+    o["outs"].append([])
+    return True
+
+PROPS["E05"] = dict(
+    level="exploration",
+    level_text="extension: every indexed iterator of the API (tokens(), sources(), names(), source_contents() of a map; sections() of an index) is the cursor machine of TokenIter.tla over what the indexed getter reports: sessions of next / nth / size_hint followed by one consuming adaptor (collect, skip, step_by, last, count)",
+    level_note="beyond the listed properties; not registered in MANIFEST.json",
+    technique="TLA+ cursor machine (TokenIter.tla, model-checked in MC_TokenIter), trace validation of real iterator sessions",
+    mc=[dict(module="MC_TokenIter", cfg="MC_TokenIter_quick.cfg", tiers=("quick", "thorough"), workers=4, gen=False)],
+    trace="Trace_E05",
+    selftest_include_free=True,
+    drive=dict(quick=dict(n=500, size=3), thorough=dict(n=10000, size=6)),
+    nontrivial=lambda e: e["out"].get("k") == "ok" and len(e["args"]["items"]) >= 2,
+    corrupt=_corrupt_e05,
+    rule="seeded random maps (three construction routes) and index documents (also flattened); one session per iterator kind; distinct = distinct (kind, items, steps); non-trivial = at least 2 items",
     assumptions=COMMON_ASSUMPTIONS,
 )
